@@ -124,6 +124,15 @@ def gen_timer(repo):
                 if (isinstance(c, ast.Call) and getattr(c.func, 'attr', None) == 'callLater' and c.args
                         and isinstance(c.args[0], ast.Constant)):
                     retry = c.args[0].value
+                # ... or a module-level helper that arms the timer with its parameter: helper(<int>, ..)
+                if (retry is None and isinstance(c, ast.Call) and isinstance(c.func, ast.Name) and c.args
+                        and isinstance(c.args[0], ast.Constant)):
+                    for h in tree.body:
+                        if isinstance(h, ast.FunctionDef) and h.name == c.func.id and h.args.args:
+                            first = h.args.args[0].arg
+                            if any(isinstance(x, ast.Call) and getattr(x.func, 'attr', None) == 'callLater' and x.args
+                                   and getattr(x.args[0], 'id', None) == first for x in ast.walk(h)):
+                                retry = c.args[0].value
     if not isinstance(retry, int):
         raise Untranslatable(f'{SCHED}:defer: paused retry delay not found')
     # --- accepted shapes
